@@ -15,7 +15,7 @@ EXTENDS PktWireCorpus, Json
 CONSTANTS Descs      \* the cases explored (set of descriptors)
 
 VARIABLES case,      \* the descriptor of the packet under test (chosen initially)
-          phase,     \* "init", "built", "packed", "parsed", "done"
+          phase,     \* "init", "built", "packed", "parsed", "edited", "done"
           pkt,       \* the abstract stack as the caller builds it
           fill,      \* the same with every derived field (lengths, checksums) filled in
           wire,      \* its serialisation
@@ -40,7 +40,7 @@ Build == BuildS(Stack(case))
 
 Pack ==
   /\ phase = "built" /\ phase' = "packed"
-  /\ LET a == Asm(pkt, 1) IN wire' = a.b /\ fill' = a.v
+  /\ \E q \in PadVariants(pkt) : LET a == Asm(q, 1) IN wire' = a.b /\ fill' = a.v
   /\ UNCHANGED <<case, pkt, dec>>
   /\ Log("Pack", [x |-> 0], Split(wire', PayLen(pkt)))
 
@@ -59,23 +59,45 @@ Parse ==
   /\ dec' = ParseStack(wire) /\ UNCHANGED <<case, pkt, fill, wire>>
   /\ Log("Parse", [x |-> 0], [view |-> Norm(fill)])
 
-Repack ==
-  /\ phase = "parsed" /\ phase' = "done"
-  /\ UNCHANGED <<case, pkt, fill, wire, dec>>
-  /\ Log("Repack", [x |-> 0], Split(EncStack(dec), PayLen(pkt)))
+\* The parsed packet is modified before it is sent on (what a switch applying
+\* actions does): its opaque payload is replaced by one that is a byte longer.
+\* Every length and checksum that covers it must be recomputed by Repack.
+\* Not offered where the library leaves a length or checksum field to the caller
+\* (802.3 length, EAPOL/EAP lengths, and the checksum of a *parsed* GRE header,
+\* which gre.py documents as "included as given" unless the caller sets it to True).
+NewPay(L) == [p |-> "raw", n |-> L.n + 1, a |-> (L.a + 1) % 256, b |-> L.b]
+CanEdit(s) == /\ Len(s) > 1 /\ s[Len(s)].p = "raw" /\ s[1].p = "eth" /\ s[1].type >= 1536
+              /\ \A i \in 1..Len(s) : s[i].p \notin {"eapol", "eap"} /\ (s[i].p = "gre" => s[i].c = 0)
+Edit ==
+  /\ phase = "parsed" /\ phase' = "edited" /\ CanEdit(pkt)
+  /\ LET np == NewPay(pkt[Len(pkt)])
+         d2 == [dec EXCEPT ![Len(dec)] = [p |-> "rawb", data |-> RawBytes(np)]]
+         a  == Asm(d2, 1)
+     IN /\ pkt' = [pkt EXCEPT ![Len(pkt)] = np]
+        /\ dec' = d2 /\ wire' = a.b /\ fill' = a.v
+        /\ Log("Edit", np, [ok |-> TRUE])
+  /\ UNCHANGED case
 
-Next == Build \/ Feed \/ Pack \/ Parse \/ Repack
+Repack ==
+  /\ phase \in {"parsed", "edited"} /\ phase' = "done"
+  /\ UNCHANGED <<case, pkt, fill, wire, dec>>
+  \* the same bytes - except that DHCP pad options, which carry no information,
+  \* may be placed afresh (a packet the library itself serialised has them
+  \* where the library puts them, so for those the bytes are the same)
+  /\ \E q \in PadVariants(dec) : Log("Repack", [x |-> 0], Split(EncStack(q), PayLen(pkt)))
+
+Next == Build \/ Feed \/ Pack \/ Parse \/ Edit \/ Repack
 Spec == Init /\ [][Next]_vars
 
 ---------------------------------------------------------------------------
 (* The property, over the real variables                                    *)
 
-TypeOK == /\ phase \in {"init", "built", "packed", "parsed", "done"}
+TypeOK == /\ phase \in {"init", "built", "packed", "parsed", "edited", "done"}
           /\ phase = "built" => StackOK(pkt)
           /\ phase = "packed" => IsBytes(wire) /\ StackOK(fill)
 
 \* emitted length fields and checksums are right (checked from the bytes)
-LengthsAndChecksumsOK == phase = "packed" => WireOK(fill, wire)
+LengthsAndChecksumsOK == phase \in {"packed", "edited"} => WireOK(fill, wire)
 
 \* the two definitions of the Internet checksum agree on every frame and on
 \* the frame without its last byte (odd and even lengths)
@@ -87,16 +109,17 @@ ChecksumDefsAgree ==
 ParseRecovers == phase = "parsed" => Norm(dec) = Norm(Expand(fill))
 
 \* serialising the parse result reproduces the same bytes; so does
-\* serialising the completed stack (derived fields are recomputed, not trusted)
+\* serialising the completed stack (derived fields are recomputed, not trusted).
+\* (Pack is deterministic except for the placement of DHCP pad options.)
 ReserialiseSame ==
   /\ phase = "parsed" => EncStack(dec) = wire
   /\ phase = "packed" => EncStack(fill) = wire
 
 \* what the actions promise is what the state holds
 ObservationsOK ==
-  [][/\ last'.a \in {"Pack", "Repack"} =>
-          /\ last'.exp.hdr = Take(wire', Len(wire') - PayLen(pkt'))
-          /\ last'.exp.pay = PayLen(pkt')
+  [][/\ last'.a = "Pack" => /\ last'.exp.hdr = Take(wire', Len(wire') - PayLen(pkt'))
+                             /\ last'.exp.pay = PayLen(pkt')
+     /\ last'.a = "Repack" => \E q \in PadVariants(dec') : last'.exp = Split(EncStack(q), PayLen(pkt'))
      /\ last'.a = "Parse" => Norm(Expand(last'.exp.view)) = Norm(dec')]_vars
 
 \* ---- export for the replay harness
